@@ -13,7 +13,7 @@ import (
 
 func init() {
 	props["C14"] = c14
-	floors["C14"] = map[string]int{"C14.R1": 8, "C14.R2": 12, "C14.R3": 2, "C14.R4": 2, "C14.R5": 4, "C14.R6": 5, "C14.R7": 3}
+	floors["C14"] = map[string]int{"C14.R1": 8, "C14.R2": 12, "C14.R3": 3, "C14.R4": 2, "C14.R5": 5, "C14.R6": 5, "C14.R7": 3}
 }
 
 // stringSliceVar extracts the string literals of a package-level []string
@@ -234,6 +234,16 @@ func c14(r *Report) {
 		direct := w.backSlice(del.Call.Args[1], flowOpt{Through: map[string]bool{"net/http.CanonicalHeaderKey": true}})
 		trimmed := anyIn(direct, func(v ssa.Value) bool { return isCallValue(v, "strings.TrimSpace") }) && !anyIn(direct, func(v ssa.Value) bool { return isCallValue(v, "strings.Split") })
 		r.Decide("flow", "M/header.removeHopByHopHeaders: each token passes strings.TrimSpace before Header.Del", trimmed, "Split -> TrimSpace -> (CanonicalHeaderKey) -> Del", "a token reaches Header.Del untrimmed: `Connection: a, b` leaves header b in place", del.Pos())
+		// the list separator is the comma alone (optional whitespace is the sanitiser's job)
+		okSep := false
+		for v := range w.backSlice(del.Call.Args[1], flowOpt{Through: map[string]bool{"net/http.CanonicalHeaderKey": true, "strings.TrimSpace": true}}) {
+			if c, y := v.(*ssa.Call); y && calleeName(c) == "strings.Split" {
+				if sep, isC := constString(c.Call.Args[1]); isC && sep == "," {
+					okSep = true
+				}
+			}
+		}
+		r.Decide("table", "M/header.removeHopByHopHeaders: Connection values are split at \",\"", okSep, "strings.Split(v, \",\")", "the Connection list is split on something other than a bare comma: `a,b` or `a ,b` is taken as one token and the headers it names survive", del.Pos())
 		// all lines: the split input comes from ranging header["Connection"], not from Get
 		full := w.backSlice(del.Call.Args[1], flowOpt{Through: map[string]bool{"net/http.CanonicalHeaderKey": true, "strings.TrimSpace": true, "strings.Split": true}})
 		viaGet := anyIn(full, func(v ssa.Value) bool { return isCallValue(v, "(net/http.Header).Get") })
@@ -351,6 +361,26 @@ func c14(r *Report) {
 			return strings.HasPrefix(calleeName(c), "(net/http.Header).") && isC && k == "Via"
 		})
 		r.Decide("flow", "(*M/header.ViaModifier).ModifyRequest: the loop test examines the request's Via header", okArg, "hasLoop(<Via value>)", "the loop test looks at something else than the Via header", loops[0].Pos())
+		// the loop test compares the whole received-by token, built from the same two parts the
+		// stamp is written from (the proxy name may itself contain the separator)
+		if hl := r.Use("header", "ViaModifier.hasLoop"); hl != nil {
+			okTok := false
+			for _, in := range instrs(hl) {
+				b, isB := in.(*ssa.BinOp)
+				if !isB || b.Op != token.EQL {
+					continue
+				}
+				for _, side := range []ssa.Value{b.X, b.Y} {
+					sl := w.backSlice(side, flowOpt{BinOps: true, Through: map[string]bool{"fmt.Sprintf": true}})
+					hasName := anyIn(sl, func(v ssa.Value) bool { fa, y := v.(*ssa.FieldAddr); return y && fieldObj(fa).Name() == "requestedBy" })
+					hasBound := anyIn(sl, func(v ssa.Value) bool { fa, y := v.(*ssa.FieldAddr); return y && fieldObj(fa).Name() == "boundary" })
+					if hasName && hasBound {
+						okTok = true
+					}
+				}
+			}
+			r.Decide("flow", "(*M/header.ViaModifier).hasLoop: compares the whole received-by token (name and boundary together)", okTok, "one comparison against the token built from requestedBy and boundary", "the received-by field is taken apart before comparing: a proxy whose name contains the separator never recognises its own Via entry", hl.Pos())
+		}
 		// response side reads the same key and answers 400
 		getKey := ""
 		for _, c := range plainCalls(vres, "(*M.Context).Get") {
